@@ -86,6 +86,9 @@ def gen_base(rng, want):
                 a = side[rng.randrange(len(side))]
                 a["argv"] = [a["flag"], a["argv"][1].replace(a["name"] + "=", "unknown=", 1)]
                 a["name"] = "unknown"
+    sc.revcomp = bool(sc.paired and rng.random() < want.get("revcomp_p", 0.0))
+    if sc.revcomp:
+        return gen_base_revcomp(rng, want, sc)
     sc.times = 1 if sc.pair_adapters else rng.choice([1, 1, 1, 2])
     sc.mods = []
     if rng.random() < 0.15:
@@ -117,7 +120,63 @@ def gen_base(rng, want):
     return sc
 
 
+def gen_base_revcomp(rng, want, sc):
+    """Paired --revcomp: one adapter per side (or one side only), nothing else modifies the reads, and the mates of about
+    half of the pairs are exchanged in the input, so that the matches are found in the swapped orientation."""
+    simple = ["g^", "g^", "a", "g"]
+    r = rng.random()
+    sc.ads1 = [G.gen_adapter(rng, 0, kinds=simple, minlen=8, maxlen=12)] if r < 0.85 else []
+    sc.ads2 = [G.gen_adapter(rng, 0, upper=True, prefix="bd", kinds=simple, minlen=8, maxlen=12)] if (r >= 0.15 or want.get("demux") == "combinatorial") else []
+    if want.get("demux") == "combinatorial" and not sc.ads1:
+        sc.ads1 = [G.gen_adapter(rng, 0, kinds=simple, minlen=8, maxlen=12)]
+    sc.pair_adapters = False
+    sc.times = 1
+    sc.mods = []
+    sc.adargs = [x for a in sc.ads1 + sc.ads2 for x in a["argv"]] + ["-e", "0.1", "-O", "5", "--revcomp"]
+    feats = dict(maxlen=36, nruns=False, header=rng.choice(["plain", "casava", "comment"]), qual_profile=rng.choice(["high", "mixed", "decay"]),
+                 alphabets=["ACGT"], allow_errors=False, empty_p=0.0)
+    n = rng.randint(*want.get("nreads", (12, 40)))
+    recs1, recs2 = [], []
+    for i in range(n):
+        a = G.gen_read(rng, i, 1, sc.ads1, feats)
+        b = G.gen_read(rng, i, 2, sc.ads2, feats)
+        if rng.random() < 0.45:
+            a, b = b, a
+        recs1.append(a)
+        recs2.append(b)
+    sc.recs1, sc.recs2 = recs1, recs2
+    return sc
+
+
+def run_baseline_revcomp(d, sc):
+    """Filter-free run with --revcomp. What each written mate is - exchanged or not, shortened by an adapter or not - is read
+    off the records themselves (' rc' at the end of the name, length against the input mate it comes from), not off the
+    match lists of the program."""
+    inputs = climon.write_inputs(d, sc.recs1, sc.recs2)
+    argv = sc.adargs + ["-o", "b1.fq", "-p", "b2.fq"] + inputs
+    run = climon.run(d, argv, tag="base", trace=False)
+    sc.inputs = inputs
+    sc.base_argv = argv
+    if run.rc != 0:
+        return None, run
+    fo1, fo2 = run.records("b1.fq"), run.records("b2.fq")
+    if not fo1 or not fo2 or fo1[0] == "error" or fo2[0] == "error" or len(fo1[1]) != len(sc.recs1) or len(fo2[1]) != len(sc.recs1):
+        return None, run
+    out = {1: [], 2: []}
+    for k, (o1, o2) in enumerate(zip(fo1[1], fo2[1])):
+        swapped = o1[0].endswith(" rc")
+        src = (sc.recs2[k], sc.recs1[k]) if swapped else (sc.recs1[k], sc.recs2[k])
+        for side, o, srcrec, ads in ((1, o1, src[0], sc.ads1), (2, o2, src[1], sc.ads2)):
+            trimmed = len(o[1]) < len(srcrec[1])
+            out[side].append(dict(name=o[0][:-3] if o[0].endswith(" rc") else o[0], seq=o[1], qual=o[2], trimmed=trimmed,
+                                  adapter=ads[0]["name"] if (trimmed and ads) else "no_adapter", swapped=swapped))
+    sc.base = out
+    return out, run
+
+
 def run_baseline(d, sc):
+    if getattr(sc, "revcomp", False):
+        return run_baseline_revcomp(d, sc)
     inputs = climon.write_inputs(d, sc.recs1, sc.recs2)
     argv = sc.adargs + sc.mods + ["--rename", "{header}" + TAG + "{adapter_name}", "-o", "b1.fq"] + (["-p", "b2.fq"] if sc.paired else []) + inputs
     run = climon.run(d, argv, tag="base", trace=False)
